@@ -1,6 +1,7 @@
 import PPModel.Base.Sexp
 import PPModel.Mod.Entry
 import PPModel.Mod.LeftRec
+import PPModel.Mod.PlainFrag
 /-
   Driver handlers for the shared parse model.
 
@@ -148,6 +149,7 @@ def parseHandle : List Sexp → Option Sexp
       let g ← nodes.mapM node?
       let p ← mkP mode g s fuel
       match entry, opts with
+      | "plain", [] => pure (ofBool (plainTable g))
       | "parse", [] => pure (outSexpNoEnd (parseString p g root dw s false))
       | "parseNames", [] => pure (outSexpNames (parseString p g root dw s false))
       | "parseAll", [] => pure (outSexpNoEnd (parseString p g root dw s true))
